@@ -31,7 +31,7 @@ fn plan(dir: &Path, locked: bool, offline: bool) -> String {
     let opts = PkgOpts { path: Some(dir.to_string_lossy().to_string()), offline, locked, terse: true, ..Default::default() };
     match std::panic::catch_unwind(|| BuildPlan::from_pkg_opts(&opts)) {
         Err(_) => "panic".into(),
-        Ok(Ok(_)) => "ok".into(),
+        Ok(Ok(p)) => format!("ok(nodes={})", p.graph().node_count()),
         Ok(Err(e)) => format!("err:{}", short(&e)),
     }
 }
@@ -64,6 +64,13 @@ fn main() {
     project(&d.join("libb"), "libb", true, "");
     project(&d.join("app"), "app", false, "\"d)e\" = { path = \"../libb\", package = \"libb\" }");
     report("paren-in-dependency-name", &d.join("app"), true);
+    // two different path packages with the same name (same path root => same pinned source)
+    let d = root.join("s7");
+    project(&d.join("x").join("foo"), "foo", true, "");
+    project(&d.join("y").join("foo"), "foo", true, "");
+    project(&d.join("libb"), "libb", true, "foo = { path = \"../y/foo\" }");
+    project(&d.join("app"), "app", false, "foo = { path = \"../x/foo\" }\nlibb = { path = \"../libb\" }");
+    report("two-path-packages-same-name", &d.join("app"), true);
     // git scenarios: a local repository with a library `b`
     let repo = root.join("repo");
     project(&repo, "libb", true, "");
